@@ -25,7 +25,7 @@ RULE = ('per function a fixed (seed independent) list of edge arguments -- negat
         'distinct = distinct (function, arguments, precision, exact flag)')
 ASSUMPTIONS = ['vf/intalgos.py is correct (its independent formulations are cross-checked against each other in every worker: tangent numbers vs '
                'classical recurrence vs zeta/von Staudt-Clausen, secant numbers vs cosh recurrence, sieve vs trial division vs Miller-Rabin, ...)',
-               '1 ulp is measured in the binade of max(|exact|, |returned|) at the working precision; default rounding mode of the context (nearest)',
+               '1 ulp = 2^(floor(log2|exact|) - p + 1), the unit of the binade of the exact value (both p-bit neighbours of the exact value are within 1 ulp); default rounding mode of the context (nearest)',
                'isprime is asserted in both directions below 3.4*10^14 and for primes above; composites above are outside the deterministic claim (noted)',
                'arguments outside the supported range (poles of the gamma quotient, negative orders, n > 10^30 in mangoldt) are not asserted']
 LEVEL_TEXT = ('exploration: ~1.2*10^5 (quick) / ~2*10^6 (thorough) calls on the real code over 20 functions, each result compared with an exact value '
@@ -81,16 +81,19 @@ def decide(got, exact, p):
         want = Q.exact_raw(E)
         if got == want:
             return True, True, 0
-    # error in ulps of the binade of max(|exact|, |got|)
+    # error in ulps of the binade of the exact value (both neighbours of the exact value in the p-bit grid are within 1 such ulp)
     e1 = floor_log2_ratio(abs(N), D)
     e2 = (exp + bc - 1) if man else e1
-    u = max(e1, e2) - p + 1                   # ulp = 2^u
+    if abs(e2 - e1) > 100000:
+        # astronomically wrong magnitude: more than 1 ulp away (an exact value that does not fit is not a power of two)
+        return False, fits, 10**9
+    u = e1 - p + 1                   # ulp = 2^u
     g = -man if sign else man
     # |g 2^exp - N/D| <= 2^u   <=>   |g 2^exp D - N| <= 2^u D ; clear negative powers of two
     k = max(0, -exp, -u)
     lhs = abs((g << (exp + k)) * D - (N << k))
     rhs = D << (u + k)
-    milli = (lhs * 1000) // rhs
+    milli = min((lhs * 1000) // rhs, 10**12)
     if fits:
         return False, True, milli
     return lhs <= rhs, False, milli
@@ -104,12 +107,14 @@ def decide_real(got, lo, hi, W, p):
     if not man or sign:
         return False, None
     e1 = floor_log2_ratio(lo, 1 << W) if lo > 0 else exp + bc - 1
-    u = max(e1, exp + bc - 1) - p + 1
+    if abs(exp + bc - 1 - e1) > 100000:
+        return False, 10**9
+    u = e1 - p + 1
     k = max(0, -exp, -u)
     g = (man << (exp + k)) << W          # got * 2^(W+k)
     L, H = lo << k, hi << k
     U = 1 << (u + k + W)
-    milli = (abs(g - L) * 1000) // U
+    milli = min((abs(g - L) * 1000) // U, 10**12)
     if L - U <= g <= H + U:
         if H - U <= g <= L + U:
             return True, milli
@@ -232,7 +237,7 @@ def random_args(fn, r, tier):
     if fn == 'bernfrac':
         return (c([r.randint(0, 80), 2 * r.randint(0, 300), 2 * r.randint(1490, 1510), 2 * r.randint(0, 1600 if th else 800)]),)
     if fn == 'eulernum':
-        return (c([r.randint(0, 120), 2 * r.randint(0, 130), 2 * r.randint(240, 260), 2 * r.randint(0, 400 if th else 270)]),)
+        return (c([r.randint(0, 99), r.randint(0, 99), 2 * r.randint(0, 49), r.randint(0, 120), 2 * r.randint(0, 130), 2 * r.randint(240, 260), 2 * r.randint(0, 400 if th else 270)]),)
     if fn in ('stirling1', 'stirling2'):
         n = c([r.randint(0, 30), r.randint(0, 120), r.randint(0, 220 if th else 140)])
         return (n, c([r.randint(0, n + 2), r.randint(0, 5), max(0, n - r.randint(0, 5))]))
@@ -268,6 +273,31 @@ def pick_prec(r, exact):
 # ---------------------------------------------------------------------------------------
 # one case
 # ---------------------------------------------------------------------------------------
+def _needs_more_than(v, bits):
+    v = abs(int(v))
+    if not v:
+        return False
+    v >>= ((v & -v).bit_length() - 1)
+    return v.bit_length() > bits
+
+
+def argument_sum_rounded(fn, args, p):
+    """a-priori predicate for one mechanism: binomial / rf / ff form n+1, k+1, n+1-k / x+n / x+1, x-n, x-n+1 with
+    fadd(..., prec=2*prec); if such a sum does not fit in 2p bits the gamma quotient is taken at a different integer"""
+    if fn == 'binomial':
+        n, k = args
+        mids = (n + 1, k + 1, n + 1 - k)
+    elif fn == 'rf':
+        x, n = args
+        mids = (x + n,)
+    elif fn == 'ff':
+        x, n = args
+        mids = (x + 1, x - n, x - n + 1)
+    else:
+        return False
+    return any(_needs_more_than(m, 2 * p) for m in mids)
+
+
 def run_mpf_case(mp, rec, r, fn, args, p, exact_flag=False):
     oracle, call, main = FUNCS[fn]
     try:
@@ -315,6 +345,11 @@ def run_mpf_case(mp, rec, r, fn, args, p, exact_flag=False):
         rec.maximum('%s: max error (ulp/1000)' % fn, int(milli), case)
     if not ok:
         sev = None if milli is None else int(milli)
+        if argument_sum_rounded(fn, args, p):
+            rec.violation('C25/%s/argument-sum-exceeds-2p-bits' % fn,
+                          '%s%r at %d bits: an integer argument sum does not fit in 2*prec bits and is rounded before the gamma quotient is taken' % (fn, tuple(args), p),
+                          case, observed=got._mpf_, expected=str(exact)[:300])
+            return
         rec.violation(key + ('fits' if fits else 'rounded'),
                       '%s%r at %d bits: %s' % (fn, tuple(args), p, 'exact value fits but was not returned' if fits else 'error above 1 ulp (%s/1000 ulp)' % milli),
                       case, observed=got._mpf_, expected=str(exact)[:300], severity=sev)
@@ -420,6 +455,13 @@ def run_moebius(libmp, rec, n):
 
 
 def run_list_primes(libmp, rec, n):
+    if n < 0:
+        try:
+            res = repr(libmp.list_primes(n))
+        except Exception as e:
+            res = type(e).__name__
+        rec.note('list_primes of a negative bound (outside the supported range)', {'n': n, 'result': res}, cap=4)
+        return
     exp = I.small_primes(n)
     rec.case(('list_primes', n), n > 30, cls='list_primes/%s' % bucket(n))
     try:
@@ -510,10 +552,15 @@ def run_shard(shard, rec):
                 if i % NSHARDS == shard['shard'] % NSHARDS or (tier == 'thorough' and (i + 5) % NSHARDS == shard['shard']):
                     work.append((fn, a))
         for fn in list(FUNCS) + ['bernfrac']:
-            for _ in range(shard['n'] if fn not in ('bernfrac', 'primepi') else max(5, shard['n'] // 6)):
+            weight = {'bernfrac': 0.17, 'primepi': 0.17, 'eulernum': 0.4, 'eulerpoly': 0.6, 'bernpoly': 0.8}.get(fn, 1.0)
+            for _ in range(max(5, int(shard['n'] * weight))):
                 work.append((fn, random_args(fn, r, tier)))
         for n, p in bernoulli_chains(r, tier):
             work.append(('bernoulli-chain', (n, p)))
+        # precisions above the cut-off (bernoulli_size(3000) ~ 22.4k bits) where mpf_bernoulli goes through the exact fraction
+        for j, (n, p) in enumerate([(2, 22500), (10, 23000), (50, 22400), (100, 24000), (200, 25000), (12, 30000), (30, 22390), (64, 22700)]):
+            if j % NSHARDS == shard['shard'] % 8:
+                work.append(('bernoulli-chain', (n, p)))
         # mangoldt arguments
         mg = list(range(-2, 130))[shard['shard']::NSHARDS]
         for _ in range(shard['n']):
